@@ -26,11 +26,10 @@ ASSUMPTIONS = ['neurodsp.burst.detect_bursts_dual_threshold is the trusted sampl
 
 ROUTE_VALS = (None, 1, 2, 4)
 ROUTE_VALS_T = (None, 0, 1, 2, 4)
-FULL = False      # thorough tier: full product of routes x durations x thresholds
 AMP_THRESHES = [(1, 2), (.5, 1.), (.25, .5)]
 
 
-def evaluate(case):
+def evaluate(case, FULL=False):
     from neurodsp.burst import detect_bursts_dual_threshold
     from bycycle.features import compute_features
     from bycycle.burst import detect_bursts_amp
@@ -154,19 +153,27 @@ def eval_short_table(case):
     return OK(outcome=(w, centre, m, tuple(np.round(bf, 6))), nontrivial=len(df) < m and bool(bf.any()))
 
 
+def evaluate_full(case):
+    return evaluate(case, FULL=True)
+
+
 def spaces(tier, seed):
-    global FULL
-    FULL = tier != 'quick'
     leaf = [(c, a) for c in ('peak', 'trough') for a in AMP_THRESHES]
-    if tier == 'quick':
+    if True:
         al = S.alphabet(4)
         leaf = [(c, a) for c in ('peak', 'trough') for a in AMP_THRESHES[:2]]
         st = [(c, m) for c in ('peak', 'trough') for m in (3, 4, 5)]
-        return [ProductSpace('W(2,8)-short-tables', S.word_dims(['a', 'd'], 8) + [st], eval_short_table,
+        out = [ProductSpace('W(2,8)-short-tables', S.word_dims(['a', 'd'], 8) + [st], eval_short_table,
                              describe='8-letter words with boundary 12: tables with fewer rows than min_n_cycles'),
                 ProductSpace('W(4,5)xroutes', S.word_dims(al, 5) + [leaf], evaluate,
                              bounds={'letters': al, 'routes': 16, 'durations': 2, 'amp_threshes': AMP_THRESHES})]
-    al = S.alphabet(8, seed, extra=1)
-    return [ProductSpace('W(9,5)xroutes', S.word_dims(al, 5) + [leaf[:1] + leaf[4:5]], evaluate, bounds={'letters': al}),
-            ProductSpace('W(6,5)xroutes', S.word_dims(S.alphabet(6), 5) + [leaf], evaluate, bounds={'letters': S.alphabet(6)}),
-            ProductSpace('W(4,6)xroutes', S.word_dims(S.alphabet(4), 6) + [leaf], evaluate, bounds={'letters': S.alphabet(4)})]
+    if tier != 'quick':
+        leaf = [(c, a) for c in ('peak', 'trough') for a in AMP_THRESHES]
+        out.append(ProductSpace('W(4,5)xroutes-full', S.word_dims(S.alphabet(4), 5) + [leaf], evaluate_full,
+                                describe='full product of routes (incl. 0) x durations x thresholds', bounds={'letters': S.alphabet(4)}))
+        al = S.alphabet(6, seed, extra=1)
+        out.append(ProductSpace('W(7,5)xroutes', S.word_dims(al, 5) + [leaf[1:2] + leaf[3:4]], evaluate, bounds={'letters': al}))
+        st = [(c, m) for c in ('peak', 'trough') for m in (3, 4, 5, 6)]
+        out.append(ProductSpace('W(3,8)-short-tables', S.word_dims(['a', 'b', 'd'], 8) + [st], eval_short_table))
+    return out
+
